@@ -59,6 +59,8 @@ func c06Jobs(tier string) []string {
 	raw := []string{
 		"or=m,devs=kwhlo,mss=24,w=72,pd=3x20,ts=1,psack=1,sack=1,b=1",
 		"or=m,devs=kwhlo,mss=536,ws=2,w=700,pd=2x300,active=0,b=1",
+		"or=ms,devs=o,mss=100,ws=2,ts=1,psack=1,sack=1,w=50,pd=10x20,b=1", // up to five ranges waiting out of order: timestamps + as many SACK blocks as fit
+		"or=ms,devs=o,mss=100,ws=-1,psack=1,sack=1,w=50,pd=10x20,b=1",
 		"or=m,devs=kwhl,mss=100,ws=7,w=5x100,pd=,v6=1,mtu=1280,ts=1,b=1",
 	}
 	for _, p := range raw {
